@@ -109,6 +109,20 @@ def build_case(ctx, cli, tmp, case):
     args = ['build', '-i', os.path.join(src, '*.' + ext)]
     if out:
         args += ['-o', out]
+    outdir0 = out or src
+    if case.get('stale'):
+        # targets that exist already (written after the sources, so they are newer): a build must replace them
+        os.makedirs(outdir0, exist_ok=True)
+        for n, c in files:
+            if '.' in n and n.rsplit('.', 1)[-1] == ext and hash(n) % 2 == case['stale'] % 2:
+                open(os.path.join(outdir0, n.rsplit('.', 1)[0] + '.svg'), 'w').write('<svg>left over from an earlier run</svg>\n')
+    if case.get('twice'):
+        # an earlier build of other documents with the same names into the same output directory
+        src0 = os.path.join(tmp, 'src0')
+        os.makedirs(src0)
+        for name, content in files:
+            open(os.path.join(src0, name), 'w', encoding='utf-8', newline='').write('+--+\n|zz|\n+--+\n' + content)
+        subprocess.run([cli, 'build', '-i', os.path.join(src0, '*.' + ext)] + (['-o', out] if out else ['-o', src]), capture_output=True, timeout=300, cwd=tmp)
     r = subprocess.run([cli] + args, capture_output=True, timeout=300, cwd=tmp)
     ctx.note(key_of('build', files, ext, case['outdir']), True, 'builds')
     outdir = out or src
@@ -154,6 +168,12 @@ def error_case(ctx, cli, tmp, case):
         args = [os.path.join(tmp, 'bin.bob'), '-o', outp]
     elif what == 'non_utf8_stdin':
         args = ['-o', outp]
+    elif what == 'build_target_is_dir':
+        os.makedirs(os.path.join(tmp, 'b'))
+        open(os.path.join(tmp, 'b', 'c.bob'), 'w').write('+-+\n')
+        os.makedirs(os.path.join(tmp, 'b', 'c.svg'))
+        outp = os.path.join(tmp, 'never')
+        args = ['build', '-i', os.path.join(tmp, 'b', '*.bob')]
     elif what == 'build_missing_dir':
         args = ['build', '-i', os.path.join(tmp, 'nodir', '*.bob'), '-o', os.path.join(tmp, 'o')]
     elif what == 'unknown_option':
@@ -236,11 +256,12 @@ def gen_build(rng, circles):
         files.append(('README', 'no extension\n'))
     if rng.random() < 0.2 and 'old.svg' not in names:
         files.append(('old.svg', '<svg/>\n'))
-    return {'kind': 'build', 'files': files, 'ext': rng.choice(['bob', 'bob', 'bob', 'txt']), 'outdir': rng.choice(['', 'out', 'deep/er/out'])}
+    return {'kind': 'build', 'files': files, 'ext': rng.choice(['bob', 'bob', 'bob', 'txt']), 'outdir': rng.choice(['', 'out', 'deep/er/out']),
+            'stale': rng.choice([0, 0, 1, 2]), 'twice': rng.random() < 0.25}
 
 
 def gen_error(rng):
-    what = rng.choice(['missing_file', 'bad_number', 'unwritable', 'output_is_dir', 'non_utf8', 'non_utf8_stdin', 'build_missing_dir', 'unknown_option'])
+    what = rng.choice(['missing_file', 'bad_number', 'unwritable', 'output_is_dir', 'non_utf8', 'non_utf8_stdin', 'build_missing_dir', 'build_target_is_dir', 'unknown_option'])
     case = {'kind': 'error', 'what': what}
     if what == 'bad_number':
         case['opt'] = rng.choice(['font-size', 'stroke-width', 'scale'])
